@@ -19,7 +19,7 @@ TECHNIQUE = ('exhaustive enumeration of small clique families x damping x potent
              '(primal residual over all nested region pairs, dual residual by dense least squares) of the strictly concave programme')
 RULE = ('case = (family, presentation, potential class, total, damping, minimal); families: all antichains and all families with exactly one nested '
         'pair over (A,B,C), plus chain, star, 4-loop, two overlapping triples and the four triples over (A,B,C,D); potential classes: generic on every '
-        'region / zero on derived regions / x5; non-trivial = >= 2 regions; distinct = digest of the case.')
+        'region / zero on derived regions / x5; schedules: one call, 1500 single-sweep calls, same potentials object updated in place between converged calls; non-trivial = >= 2 regions; distinct = digest of the case.')
 LEVEL_TEXT = ('Every family of the alphabet is run to convergence and the returned pseudo-marginals are certified optimal by the KKT conditions of the '
               'convexified free energy: agreement on every shared sub-region (all nested pairs, beyond the edges the implementation keeps) and '
               'stationarity of theta - log q - 1 in the row space of the constraints. Strict concavity makes the certificate equivalent to being '
